@@ -29,6 +29,12 @@ import (
 
 func init() { register("C18", runC18) }
 
+// further parts of the run and replay kinds, registered by the other c18_*.go files
+var (
+	c18Extra       []func(e *Env)
+	c18ReplayExtra = map[string]func(e *Env, n int, templates json.RawMessage) error{}
+)
+
 type c18Inner struct {
 	Name   string
 	Tags   []string
@@ -537,10 +543,20 @@ func c18Replay(e *Env) error {
 			Kind       string          `json:"kind"`
 			Templates  json.RawMessage `json:"templates"`
 			Concurrent bool            `json:"concurrent"`
+			N          int             `json:"n"`
 		} `json:"case"`
 	}
 	if err := json.Unmarshal(b, &f); err != nil {
 		return err
+	}
+	if h, ok := c18ReplayExtra[f.Case.Kind]; ok {
+		if err := h(e, f.Case.N, f.Case.Templates); err != nil {
+			return err
+		}
+		for _, v := range e.Rep.Violations {
+			fmt.Printf("  %s: %s\n", v.Key, v.What)
+		}
+		return nil
 	}
 	switch f.Case.Kind {
 	case "snapshot", "indep":
@@ -675,6 +691,13 @@ func runC18(e *Env) error {
 			seq[i] = pick(e.Rng, progs)
 		}
 		c18SharedRound(e, seq, round%2 == 1, expect)
+	}
+	// (6) … : sizes, places, operators (c18_sized.go)
+	for _, part := range c18Extra {
+		if r.Full() {
+			break
+		}
+		part(e)
 	}
 	return nil
 }
